@@ -1074,6 +1074,14 @@ func (p *printer) expr1(expr ast.Expr, prec1, depth int) {
 			p.print(token.RBRACE)
 		}
 	case *ast.ErrWrapExpr:
+		if x.Default != nil && token.UnaryPrec < prec1 {
+			// `a?:b` ends in a unary expression: as the operand of a selector,
+			// index, call or another `!`/`?` it needs parentheses
+			p.print(token.LPAREN)
+			p.expr(x)
+			p.print(token.RPAREN)
+			break
+		}
 		// the operand is a primary expression and the default value a unary
 		// expression (see parser.parseErrWrapExpr): parenthesize anything weaker
 		p.expr1(x.X, token.HighestPrec, depth)
